@@ -435,8 +435,8 @@ private:
             const Scalar fac = e12 / e11;
             // const Scalar x2 = (c2 - fac * c1) / (e22 - fac * e21);
             // const Scalar x1 = (c1 - e21 * x2) / e11;
-            x.col(1).array() = (c2 - fac * c1).array() / (e22 - fac * e21);
-            x.col(0).array() = (c1 - e21 * x.col(1)).array() / e11;
+            x.col(1).array() = (c2 - fac * c1).array() * (Scalar(1) / (e22 - fac * e21));
+            x.col(0).array() = (c1 - e21 * x.col(1)).array() * (Scalar(1) / e11);
         }
         else
         {
@@ -446,8 +446,8 @@ private:
             const Scalar fac = e11 / e12;
             // const Scalar x2 = (c1 - fac * c2) / (e21 - fac * e22);
             // const Scalar x1 = (c2 - e22 * x2) / e12;
-            x.col(1).array() = (c1 - fac * c2).array() / (e21 - fac * e22);
-            x.col(0).array() = (c2 - e22 * x.col(1)).array() / e12;
+            x.col(1).array() = (c1 - fac * c2).array() * (Scalar(1) / (e21 - fac * e22));
+            x.col(0).array() = (c2 - e22 * x.col(1)).array() * (Scalar(1) / e12);
         }
     }
 
@@ -478,7 +478,9 @@ private:
         }
 
         // l /= A[k, k]
-        l /= akk;
+        // (a vector is divided by a complex number through its reciprocal: the element-wise complex
+        // quotient divides by the squared modulus, which underflows for a tiny pivot)
+        l *= (Scalar(1) / akk);
 
         return CompInfo::Successful;
     }
